@@ -120,7 +120,9 @@ func c16ops() []c16op {
 			}
 			return digest([]byte(b.String() + fmt.Sprint(f.GlyphBBoxes())))
 		}},
-		{"MakeGlyphNames", always, func(f *sfnt.Font, r *rand.Rand) string { return digest([]byte(strings.Join(f.MakeGlyphNames(), "\x00"))) }},
+		{"MakeGlyphNames", always, func(f *sfnt.Font, r *rand.Rand) string {
+			return digest([]byte(strings.Join(f.MakeGlyphNames(), "\x00")))
+		}},
 		{"GetFontInfo", always, func(f *sfnt.Font, r *rand.Rand) string {
 			return fmt.Sprintf("%+v|%s|%s|%s", *f.GetFontInfo(), f.PostScriptName(), f.FullName(), f.Subfamily())
 		}},
